@@ -310,7 +310,11 @@ def run_multi(rec, rng, seams, rels, decls, cell):
     names = D.all_var_names()
     pv = D.param_values()
     try:
-        b = B.Builder(decls)
+        # in half of the problems every mention of a declared vector is a NEW VectorVariable object of that name (objective and
+        # constraints built by helper functions that each declare the vector): the same problem variables by name
+        fresh = (len(rels) + len(A.canon(rels[0]))) % 2 == 0
+        b = B.Builder(decls, fresh_vectors=fresh)
+        rec.cells["vectors:" + ("new-object-per-mention" if fresh else "one-object")] += 1
         # the objective owns one variable of its own, last in the natural order ("zz"); later it is replaced by an objective
         # owning another one that sorts first ("a0"): same number of variables, every position shifted
         own1, own2 = b.variables(["zz", "a0"])
@@ -381,6 +385,16 @@ def _check_dicts(rec, rng, seams, P, D, rels, counts, names, pv, cell, show, pha
     return True
 
 
+def deep_relation(n, sense):
+    """a relation whose left side is accumulated over n terms with non-commutative operators (beyond the switch depth for n >= 400)"""
+    acc = ["bin", "-", ["bin", "*", ["raw", 2.0, "float"], _a], ["bin", "/", _b, ["raw", 4.0, "float"]]]
+    for i in range(1, n):
+        v = _a if i % 2 else _b
+        t = ["bin", "/", ["bin", "**", ["bin", "-", v, ["raw", 0.1 * (i % 5), "float"]], ["raw", 2, "int"]], ["raw", 50.0 + i % 3, "float"]]
+        acc = ["bin", "-" if i % 3 == 0 else "+", acc, t]
+    return ["rel", sense, acc, ["bin", "-", ["raw", 3.0, "float"], ["el", _x, 0]], "direct"]
+
+
 def multi_cases(rng):
     """lists of relations mixing the three senses in every order"""
     lin = ["bin", "+", _a, _b]
@@ -398,6 +412,13 @@ def multi_cases(rng):
             out.append([rng.choice(pool[s]) for s in order])
     for a_, b_ in itertools.permutations(["<=", ">=", "=="], 2):
         out.append([rng.choice(pool[a_]), rng.choice(pool[a_]), rng.choice(pool[b_])])
+    # relations linear in a vector written through vector nodes (per-node Jacobian rows) next to deep accumulated ones
+    lc = ["rel", "<=", ["matmul", ["arr", [1.0, -2.0, 0.5]], _x], ["raw", 2.0, "float"], "direct"]
+    mvr = ["rel", ">=", ["mv", [[1.0, 0.0, 2.0], [0.5, -1.0, 0.0]], _x], ["arr", [-1.0, 0.25]], "direct"]
+    for n_, s_ in ((30, "<="), (399, ">="), (405, "<="), (430, "=="), (450, ">=")):
+        out.append([deep_relation(n_, s_), lc])
+        out.append([mvr, deep_relation(n_, s_)])
+    out.append([lc, mvr, ["rel", "==", ["dot", _x, _y], ["raw", 1.0, "float"], "direct"]])
     return out
 
 
